@@ -15,10 +15,16 @@ the original text, the *same* span must select the text and be recorded.
      shift line numbers (strip / lstrip / replace / slicing) applied before.
  R3  empty sections get an empty text: a ``Source`` with a literal ``string=''``
      records a degenerate span ``(n, n)``.
+ R4  the same agreement in the regex frontend's ``FortranReader``, whose line
+     table starts at an offset: on every path to a
+     ``Source(lines=(A, B), string='\\n'.join(self.source_lines[I:J]))`` the index
+     expressions satisfy ``I == A - line_offset - 1`` and ``J == B - line_offset``
+     as *linear expressions* over the reader's quantities (locals substituted
+     along the path, ``get_line_index`` expanded from its definition) -- a symbolic
+     identity, not an evaluation.
 Not decided: that the spans delivered by the parsers (``item.span``, OMNI
-``lineno``) are right; the span arithmetic of the regex frontend
-(``loki/frontend/source.py``: string offsets, line continuation merging);
-behaviour after transformations.
+``lineno``, the reader's sanitised spans) are right; string-offset based spans
+(``clone_with_span``, line-continuation merging); behaviour after transformations.
 """
 import ast
 
@@ -29,13 +35,14 @@ from sa.mutate import Mutant
 PROP = 'C20'
 
 META = dict(
-    technique='def-use agreement at every Source(...) construction of the fparser / OMNI frontends: the expressions that index the '
-              'table of original lines vs the span recorded next to the text (sibling comparison over all sites); provenance of the '
-              'line table',
+    technique='def-use agreement at every Source(...) construction of the frontends: the expressions that index the table of '
+              'original lines vs the span recorded next to the text, compared as linear normal forms (path enumeration with '
+              'substitution of locals for FortranReader; sibling comparison over all sites); provenance of the line table',
     level='Decides one necessary condition: at each of the construction sites the recorded text is the slice of the original lines '
           'delimited by the recorded span (1-based inclusive -> 0-based half-open), and the line table is the unmodified original. '
-          'Does NOT decide the correctness of the spans delivered by the parsers nor the regex frontend\'s offset arithmetic.',
-    note='Claimed for the span/text agreement clause in loki/frontend/fparser.py and loki/frontend/omni.py.',
+          'For the regex frontend\'s FortranReader the same agreement is checked as a linear identity on every path. '
+          'Does NOT decide the correctness of the spans delivered by the parsers nor string-offset based spans.',
+    note='Claimed for the span/text agreement clause in loki/frontend/fparser.py, omni.py and FortranReader (source.py).',
     ref='DESIGN.md section 3, C20',
 )
 
@@ -106,14 +113,19 @@ def run(ctx):
                 for s in subs:
                     n1 += 1
                     inst = f'{cname}.{mname}:{ast.unparse(L)}'
+                    def lin_eq(x, y, shift):
+                        try:
+                            a_, b_ = _lin(x, lambda e: None), _lin(ast.parse(y, mode='eval').body, lambda e: None)
+                        except (_NotLinear, SyntaxError):
+                            return False
+                        b_ = dict(b_); b_[1] = b_.get(1, 0) + shift
+                        return _same(a_, b_)
                     if isinstance(s.slice, ast.Slice):
-                        lo = ast.unparse(s.slice.lower).replace(' ', '') if s.slice.lower is not None else None
-                        hi = ast.unparse(s.slice.upper).replace(' ', '') if s.slice.upper is not None else None
-                        ok = s.slice.step is None and any(lo == f'{a}-1'.replace(' ', '') and hi == b.replace(' ', '') for a, b in parts)
+                        ok = s.slice.step is None and s.slice.lower is not None and s.slice.upper is not None and any(
+                            lin_eq(s.slice.lower, a, -1) and lin_eq(s.slice.upper, b, 0) for a, b in parts)
                         want = f'[{parts[0][0]} - 1:{parts[0][1]}]' if parts else '?'
                     else:
-                        ix = ast.unparse(s.slice).replace(' ', '')
-                        ok = any(ix == f'{a}-1'.replace(' ', '') and a == b for a, b in parts)
+                        ok = any(lin_eq(s.slice, a, -1) and a == b for a, b in parts)
                         want = f'[{parts[0][0]} - 1]' if parts else '?'
                     if ok:
                         ctx.judge('R1', inst, facts={'slice': ast.unparse(s), 'span': ast.unparse(L)})
@@ -141,10 +153,182 @@ def run(ctx):
                           f'the unmodified original text split at line ends, so recorded spans and recorded text drift apart')
     ctx.floor('R1', 'Source constructions cut out of the line table', n1, 6)
     ctx.floor('R3', 'empty Source constructions', n3, 4)
+    run_r4(ctx)
+
+
+# ---------------------------------------------------------------- linear normal form of index expressions
+class _NotLinear(Exception):
+    pass
+
+
+def _lin(e, expand):
+    """{atom text: coefficient, 1: constant} of an integer expression built from + - and atoms"""
+    if isinstance(e, ast.Constant) and isinstance(e.value, int) and not isinstance(e.value, bool):
+        return {1: e.value}
+    if isinstance(e, ast.BinOp) and isinstance(e.op, (ast.Add, ast.Sub)):
+        a, b = _lin(e.left, expand), _lin(e.right, expand)
+        sgn = 1 if isinstance(e.op, ast.Add) else -1
+        out = dict(a)
+        for k, v in b.items():
+            out[k] = out.get(k, 0) + sgn * v
+        return {k: v for k, v in out.items() if v != 0 or k == 1}
+    if isinstance(e, ast.UnaryOp) and isinstance(e.op, ast.USub):
+        return {k: -v for k, v in _lin(e.operand, expand).items()}
+    if isinstance(e, ast.BinOp) and isinstance(e.op, ast.Mult):
+        for c_, o_ in ((e.left, e.right), (e.right, e.left)):
+            if isinstance(c_, ast.Constant) and isinstance(c_.value, int):
+                return {k: c_.value * v for k, v in _lin(o_, expand).items()}
+        raise _NotLinear(ast.unparse(e))
+    x = expand(e)
+    if x is not None:
+        return _lin(x, expand)
+    if isinstance(e, (ast.Name, ast.Attribute, ast.Subscript, ast.Call)):
+        return {ast.unparse(e): 1}
+    raise _NotLinear(ast.unparse(e))
+
+
+def _same(a, b):
+    keys = set(a) | set(b)
+    return all(a.get(k, 0) == b.get(k, 0) for k in keys)
+
+
+def _subst(e, env):
+    """replace locals by the expressions they are bound to on the current path; ``t[0]`` of a tuple expression is its element"""
+    import copy
+
+    class S(ast.NodeTransformer):
+        def visit_Name(self, n):
+            if isinstance(n.ctx, ast.Load) and n.id in env:
+                return copy.deepcopy(env[n.id])
+            return n
+
+        def visit_Subscript(self, n):
+            n = self.generic_visit(n)
+            if isinstance(n.value, ast.Tuple) and isinstance(n.slice, ast.Constant) and isinstance(n.slice.value, int) \
+                    and -len(n.value.elts) <= n.slice.value < len(n.value.elts):
+                return n.value.elts[n.slice.value]
+            return n
+    return S().visit(copy.deepcopy(e))
+
+
+def _paths(stmts, env, out):
+    """enumerate paths (branches forked, conditions ignored) and collect (return statement, environment)"""
+    for i, st in enumerate(stmts):
+        if isinstance(st, ast.Assign) and len(st.targets) == 1:
+            t = st.targets[0]
+            v = _subst(st.value, env)
+            if isinstance(t, ast.Name):
+                env = dict(env); env[t.id] = v
+            elif isinstance(t, ast.Tuple):
+                env = dict(env)
+                for el in t.elts:
+                    nm = el.value.id if isinstance(el, ast.Starred) and isinstance(el.value, ast.Name) else (el.id if isinstance(el, ast.Name) else None)
+                    if nm:
+                        env.pop(nm, None)        # opaque: stays an atom
+        elif isinstance(st, ast.If):
+            rest = stmts[i + 1:]
+            _paths(st.body + rest, dict(env), out)
+            _paths(st.orelse + rest, dict(env), out)
+            return
+        elif isinstance(st, ast.Return):
+            out.append((st, env))
+            return
+        elif isinstance(st, (ast.Expr, ast.Assert, ast.Pass)):
+            continue
+        else:
+            raise AnalysisError(f'statement kind outside the evaluated fragment: {ast.unparse(st)[:50]}')
+
+
+def run_r4(ctx):
+    m = ctx.model
+    ctx.rule('R4', "FortranReader: Source(lines=(A, B), string='\\n'.join(self.source_lines[I:J])) with I == A - line_offset - 1 and "
+                   'J == B - line_offset as linear expressions, on every path')
+    rel = 'loki/frontend/source.py'
+    R = m.get_class(rel, 'FortranReader')
+    gli = R.function('get_line_index')
+    if gli is None:
+        raise AnalysisError('FortranReader.get_line_index vanished')
+    gret = [r for r in ast.walk(gli.node) if isinstance(r, ast.Return)]
+    gpar = gli.node.args.args[1].arg
+    OFF = 'self.line_offset'
+    TAB = 'self.source_lines'
+
+    def expand(e):
+        if isinstance(e, ast.Call) and ast.unparse(e.func) == 'self.get_line_index' and len(e.args) == 1 and len(gret) == 1:
+            return _subst(gret[0].value, {gpar: e.args[0]})
+        return None
+    n = 0
+    for mname in ('to_source', 'source_from_head', 'source_from_tail', 'source_from_sanitized_span', 'source_from_current_line'):
+        f = R.function(mname)
+        if f is None:
+            raise AnalysisError(f'FortranReader.{mname} vanished')
+        out = []
+        _paths(X_body(f.node), {}, out)
+        for ret, env in out:
+            if ret.value is None:
+                continue
+            v = _subst(ret.value, env)
+            if not (isinstance(v, ast.Call) and ast.unparse(v.func) == 'Source'):
+                continue
+            kw = {k.arg: k.value for k in v.keywords}
+            L = kw.get('lines', v.args[0] if v.args else None)
+            S = kw.get('string', v.args[1] if len(v.args) > 1 else None)
+            if L is None or S is None or (isinstance(S, ast.Constant) and S.value == ''):
+                continue
+            subs = [x for x in ast.walk(S) if isinstance(x, ast.Subscript) and ast.unparse(x.value) == TAB]
+            whole = [x for x in ast.walk(S) if isinstance(x, ast.Attribute) and ast.unparse(x) == TAB] if not subs else []
+            if isinstance(L, ast.Tuple) and len(L.elts) == 2:
+                A, B = L.elts
+            else:
+                A = ast.Subscript(value=L, slice=ast.Constant(value=0), ctx=ast.Load())
+                B = ast.Subscript(value=L, slice=ast.Constant(value=1), ctx=ast.Load())
+            if subs:
+                sl = subs[0].slice
+                if not isinstance(sl, ast.Slice) or sl.step is not None:
+                    raise AnalysisError(f'FortranReader.{mname}: `{ast.unparse(subs[0])}` is not a plain slice')
+                I = sl.lower if sl.lower is not None else ast.Constant(value=0)
+                J = sl.upper if sl.upper is not None else ast.parse(f'len({TAB})', mode='eval').body
+            elif whole:
+                I, J = ast.Constant(value=0), ast.parse(f'len({TAB})', mode='eval').body
+            else:
+                continue
+            n += 1
+            try:
+                li, lj, la, lb = (_lin(x, expand) for x in (I, J, A, B))
+            except _NotLinear as u:
+                raise AnalysisError(f'FortranReader.{mname}: `{u}` is outside the linear fragment')
+            off = {OFF: 1}
+            want_i = dict(la); want_i[OFF] = want_i.get(OFF, 0) - 1; want_i[1] = want_i.get(1, 0) - 1
+            want_j = dict(lb); want_j[OFF] = want_j.get(OFF, 0) - 1
+            inst = f'FortranReader.{mname}:line {ret.lineno}'
+            bad = []
+            if not _same(li, want_i):
+                bad.append(f'first index `{ast.unparse(I)}` != `({ast.unparse(A)}) - line_offset - 1`')
+            if not _same(lj, want_j):
+                bad.append(f'end index `{ast.unparse(J)}` != `({ast.unparse(B)}) - line_offset`')
+            if bad:
+                ctx.violation('R4', f'FortranReader.{mname}:span-text-mismatch', f'{rel}:{ret.lineno}',
+                              f'on a path to `{ast.unparse(ret)[:60]}` the recorded span and the slice of the line table disagree: ' + '; '.join(bad) +
+                              ': the node reports lines whose text it does not carry', instance=inst)
+            else:
+                ctx.judge('R4', inst, facts={'span': f'({ast.unparse(A)}, {ast.unparse(B)})', 'slice': f'[{ast.unparse(I)}:{ast.unparse(J)}]'})
+    ctx.floor('R4', 'FortranReader Source constructions on all paths', n, 6)
+
+
+def X_body(fnode):
+    from sa import exprs as X
+    return X.body_nodoc(fnode)
 
 
 F = 'loki/frontend/fparser.py'
 MUTANTS = [
+    Mutant('tail-starts-inside-last-statement', 'loki/frontend/source.py', "        start = self.sanitized_lines[-1].span[1] + 1\n        string = '\\n'.join(self.source_lines[self.get_line_index(start):])",
+           "        start = self.sanitized_lines[-1].span[0] + 1\n        string = '\\n'.join(self.source_lines[self.get_line_index(start):])",
+           expect=('R4', 'source_from_tail')),
+    Mutant('head-one-line-short', 'loki/frontend/source.py', "        lines = (self.line_offset + 1, self.sanitized_lines[0].span[0] - 1)",
+           "        lines = (self.line_offset + 1, self.sanitized_lines[0].span[0])", expect=('R4', 'source_from_head')),
+    Mutant('neutral-tail-cached-last-line', 'loki/frontend/source.py', "        start = self.sanitized_lines[-1].span[1] + 1\n",
+           "        last_line = self.sanitized_lines[-1]\n        start = last_line.span[1] + 1\n", expect=None),
     Mutant('get-source-off-by-one', F, "        string = ''.join(self.raw_source[lines[0] - 1:lines[1]]).strip('\\n')",
            "        string = ''.join(self.raw_source[lines[0]:lines[1]]).strip('\\n')", expect=('R1', 'get_source'), quick=True),
     Mutant('body-span-exclusive-end', F, "body_string = ''.join(self.raw_source[body_lines[0]-1:body_lines[1]]).rstrip('\\n')",
@@ -156,6 +340,8 @@ MUTANTS = [
            expect=('R2', 'line-table')),
     Mutant('omni-index-one-based', 'loki/frontend/omni.py', "            string = self.raw_source[self.lineno-1]", "            string = self.raw_source[self.lineno]",
            expect=('R1', 'span-text-mismatch')),
+    Mutant('neutral-slice-spelled-differently', F, "        string = ''.join(self.raw_source[lines[0] - 1:lines[1]]).strip('\\n')",
+           "        string = ''.join(self.raw_source[-1 + lines[0]:lines[1] + 0]).strip('\\n')", expect=None),
     Mutant('neutral-span-unpacked', F, "        lines = (node.item.span[0], end_node.item.span[1])\n        string = ''.join(self.raw_source[lines[0] - 1:lines[1]]).strip('\\n')",
            "        lines = (node.item.span[0], end_node.item.span[1])\n        string = ''.join(self.raw_source[node.item.span[0] - 1:end_node.item.span[1]]).strip('\\n')",
            expect=None),
